@@ -19,12 +19,15 @@ from .. import leanio
 from ..core import Ctx, load_corpus
 from . import sim_c03
 from . import c14
+from . import x01_reactor
 
 ID = "C03"
 LEVEL = "proof"
 ENGINES = ["lean-model", "kopfsim"]
 TIE = ("S: closed-loop step refinement — the silent tail of every simulated history of the real operator (after restarts, "
-       "kills before/after an applied write, downtimes, lost responses) replayed pass by pass through the Lean `loopStep`")
+       "kills before/after an applied write, downtimes, lost responses) replayed pass by pass through the Lean `loopStep`; + composition (X01): whole-operator "
+       "histories with late echoes and foreign writes replayed worker iteration by worker iteration through the composed step "
+       "`X01.work` = C07 barrier decision + the C03 turn on the event's view + write-back with versions the model generates itself")
 STRENGTH = "partial"
 LEVEL_TEXT = (
     "Lean theorems for every state of the closed loop of one object (any records, last-handled state, deletion mark, own "
@@ -121,6 +124,9 @@ THEOREMS = [("Kopf.Props.C03", "Kopf.C03." + n) for n in [
     "closing_ignores_unselected_records",
     "relist_in_sleep_leaves_event", "relist_converges", "relist_skipped_stuck", "relist_skipped_witness",
     "pass_ignores_unselected_records", "deselected_unfinished_instance", "terminates_stable_partial", "unstable_filters_witness", "filtersStable_of_essence"]]
+# the composed reactor (C03 loop + C07 barrier + C08 version test, versions generated by the model): Kopf/Props/X01.lean
+THEOREMS += x01_reactor.THEOREMS
+DRIVER_MODULES = ["C03", "X01"]
 RULE = ("seeded histories of one object: 1-4 change handlers (create/update/resume/delete, label filters, retries/timeout/backoff/"
         "errors, scripts with finitely many temporary/arbitrary/permanent failures then ok, handlers that take time (8 %), ONE id "
         "registered for two causes (10 %; histogram namesake_record_not_inherited), three lifecycles), 0-6 external ops (spec edits, reverts, label flips, annotation edits, "
@@ -1884,6 +1890,9 @@ def run(ctx: Ctx) -> None:
     for k in range(0, len(scenarios), chunk):
         _evaluate(ctx, scenarios[k:k + chunk])
     guard_witnesses(ctx)
+    # composition tie: whole-operator histories with late echoes and foreign writes, replayed iteration by iteration
+    # through the composed Lean step X01.work (versions generated by the model, never fed)
+    x01_reactor.run_reactor(ctx, n=ctx.budget(24, 600))
 
 
 def search(ctx: Ctx, broken: list) -> None:
